@@ -4,6 +4,7 @@ import Anytree.Drv.Nav
 import Anytree.Drv.Walk
 import Anytree.Drv.Export
 import Anytree.Drv.Dict
+import Anytree.Drv.Render
 /-!
 Line-protocol driver: one JSON case per input line, one JSON object per output line:
 `{"mirror": <what the model of the code computes>, "spec": <what the specification demands>}`
@@ -21,6 +22,7 @@ def dispatch (j : Json) : R (Json × Json) := do
   | "search" => runSearch j
   | "export" => runExport j
   | "dict" => runDict j
+  | "render" => runRender j
   | f => throw s!"unknown family {f}"
 
 def handle (line : String) : String :=
